@@ -361,7 +361,77 @@ func heiVals(vs []valSpec) []*ptypes.Validator {
 	return out
 }
 
+// setHash is the harness's OWN computation of the heimdall (peppermint) validator-set hash, written from
+// the format definition and sharing no code with /repo: validators in ascending address order, leaf =
+// amino-bare{1: PubKey (registered interface: 4 prefix bytes of "tendermint/PubKeySecp256k1", then the
+// 65-byte key as length-prefixed bytes), 2: VotingPower (uvarint, omitted when zero)}, RFC-6962 style
+// SHA-256 merkle tree (leaf prefix 0x00, inner prefix 0x01, split at the largest power of two < n).
 func (heiRouter) setHash(vs []valSpec, ver int) []byte {
+	ordered := heiRouter{}.order(vs, ver)
+	leaves := make([][]byte, len(ordered))
+	for i, v := range ordered {
+		pk := heiKey(v.Key).PubKey().(psecp.PubKeySecp256k1)
+		leaves[i] = refHeimdallValidatorBytes(pk[:], v.Power)
+	}
+	return refMerkle(leaves)
+}
+
+func refUvarint(v uint64) []byte {
+	var o []byte
+	for v >= 0x80 {
+		o = append(o, byte(v)|0x80)
+		v >>= 7
+	}
+	return append(o, byte(v))
+}
+
+// refAminoPrefix: sha256(name), drop leading zero bytes, skip 3 disambiguation bytes, drop leading zero
+// bytes, take 4 prefix bytes.
+func refAminoPrefix(name string) []byte {
+	h := sha256.Sum256([]byte(name))
+	bz := h[:]
+	for bz[0] == 0 {
+		bz = bz[1:]
+	}
+	bz = bz[3:]
+	for bz[0] == 0 {
+		bz = bz[1:]
+	}
+	return bz[:4]
+}
+
+var refSecpPrefix = refAminoPrefix("tendermint/PubKeySecp256k1")
+
+func refHeimdallValidatorBytes(pub []byte, power int64) []byte {
+	inner := append(append(append([]byte{}, refSecpPrefix...), refUvarint(uint64(len(pub)))...), pub...)
+	out := append([]byte{0x0A}, refUvarint(uint64(len(inner)))...)
+	out = append(out, inner...)
+	if power != 0 {
+		out = append(append(out, 0x10), refUvarint(uint64(power))...)
+	}
+	return out
+}
+
+func refMerkle(items [][]byte) []byte {
+	switch len(items) {
+	case 0:
+		return nil
+	case 1:
+		h := sha256.Sum256(append([]byte{0x00}, items[0]...))
+		return h[:]
+	}
+	k := 1
+	for k*2 < len(items) {
+		k *= 2
+	}
+	l, r := refMerkle(items[:k]), refMerkle(items[k:])
+	h := sha256.Sum256(append(append([]byte{0x01}, l...), r...))
+	return h[:]
+}
+
+// implSetHash is what the code under test computes for the same set (used ONLY for the differential
+// cross-check in learnSets, never as an expected value).
+func implHeimdallSetHash(vs []valSpec) []byte {
 	return ptypes.NewValidatorSet(heiVals(vs)).Hash()
 }
 
